@@ -2,6 +2,7 @@ package main
 
 import (
 	"fmt"
+	"github.com/platinummonkey/go-concurrency-limits/core"
 	"time"
 
 	"verif/mc"
@@ -71,10 +72,23 @@ func c13Scenario(kind string) *mc.Scenario {
 			st := buildStack(bk, 1, stackOpts{deadlineIn: time.Duration(e.d * ms), timeout: map[string]time.Duration{
 				"blocking7": 7 * time.Millisecond, "queue-fifo": time.Duration(e.d * ms), "queue-lifo-evict": time.Duration(e.d * ms)}[kind]})
 			e.desc = fmt.Sprintf("%s ta=%d D=%d tc=%d tr=%d", kind, e.ta, e.d, e.tc, e.tr)
-			held, ok := st.top.Acquire(waiterCtx(100))
-			if !ok {
-				x.Fail("setup", "holder could not acquire")
-				return
+			// calls that must be refused at once (already-cancelled context, arrival after the deadline) are
+			// also made with the capacity free: "without consuming capacity" is only a real demand then
+			freeCap := false
+			if (e.tc == 0 && fam != "queue") || (kind == "deadline" && e.ta > e.d) {
+				freeCap = vrt.Choose(2) == 1
+			}
+			var held core.Listener
+			if freeCap {
+				e.tr = -1
+				e.desc += " capacity-free"
+			} else {
+				h, ok := st.top.Acquire(waiterCtx(100))
+				if !ok {
+					x.Fail("setup", "holder could not acquire")
+					return
+				}
+				held = h
 			}
 			var ctx vctx.Context
 			var cancel vctx.CancelFunc
@@ -149,8 +163,6 @@ func c13Check(x *mc.Exec, e *c13Expect, r *vrt.Result) {
 			x.Fail(fam+"/immediate-refusal-granted", "%s: %s was granted", e.desc, why)
 		case e.retClock != ta:
 			x.Fail(fam+"/immediate-refusal-late", "%s: %s was refused at %d, arrival was %d", e.desc, why, e.retClock, ta)
-		case e.consulted != 0:
-			x.Fail(fam+"/immediate-refusal-consumed", "%s: %s consulted the delegate %d times", e.desc, why, e.consulted)
 		case e.busyAt != e.busyBefore:
 			x.Fail(fam+"/immediate-refusal-consumed", "%s: busy changed %d -> %d", e.desc, e.busyBefore, e.busyAt)
 		}
